@@ -14,10 +14,11 @@ var r *vlib.Run
 
 // Case is one replayable case. Kind selects the runner, A are its (hex / text) arguments.
 type Case struct {
-	Kind string      `json:"kind"`
-	Tag  string      `json:"tag,omitempty"`
-	A    []string    `json:"a,omitempty"`
-	W    *walletCase `json:"w,omitempty"`
+	Kind string       `json:"kind"`
+	Tag  string       `json:"tag,omitempty"`
+	A    []string     `json:"a,omitempty"`
+	W    *walletCase  `json:"w,omitempty"`
+	S    *sessionCase `json:"s,omitempty"` // kind "session": what one invocation does with its key store (session.go)
 }
 
 // rec collects the reporting actions of one case so that they are applied in case order
@@ -143,6 +144,8 @@ func runCase(o *vlib.Oracle, c *rec, cs Case) {
 		caseSeedNfkd(o, c, cs)
 	case "wallet":
 		caseWallet(o, c, cs)
+	case "session":
+		caseSession(o, c, cs)
 	default:
 		c.TieFail("bad-case", "unknown case kind "+cs.Kind, cs)
 	}
